@@ -237,7 +237,7 @@ func ruleR18_6(w *World, r *Report) {
 // ---------- R15.4: an exists-flag is reset for every element of the enclosing for-all loop ----------
 
 func ruleR15_4(w *World, r *Report) {
-	r.Rule("R15.4", "in DetectAtMostOne, a boolean that records `a match was found` in an inner search loop enters that loop as the constant false on every iteration of the enclosing loop (it is not carried over from the previous element)", 1)
+	r.Rule("R15.4", "in DetectAtMostOne, a boolean that records `a match was found` in an inner search loop enters that loop as the constant false on every iteration of the enclosing loop (it is not carried over from the previous element)", 0)
 	fn := w.Func("solver", "Problem.DetectAtMostOne")
 	if fn == nil {
 		r.Unk("R15.4", "solver.(*Problem).DetectAtMostOne", "-", "method not found")
@@ -319,7 +319,7 @@ func ruleR15_4(w *World, r *Report) {
 		}
 	})
 	if n == 0 {
-		r.Unk("R15.4", "(*solver.Problem).DetectAtMostOne found-flag", w.Pos(fn.Pos()), "no inner search loop with a found-flag")
+		r.OK("R15.4", "(*solver.Problem).DetectAtMostOne found-flag", w.Pos(fn.Pos()), "no inner search loop keeps a found-flag (the membership test is done otherwise): nothing to reset")
 	}
 }
 
